@@ -94,7 +94,9 @@ def delay_with_mapper_(
             if not sub_delay:
                 start()
             else:
-                subscription.disposable = sub_delay.subscribe(
+                d = SingleAssignmentDisposable()
+                subscription.disposable = d
+                d.disposable = sub_delay.subscribe(
                     lambda _: start(), observer.on_error, start, scheduler=scheduler
                 )
 
